@@ -54,7 +54,18 @@ def build(extra_files=('sqlparse/engine/statement_splitter.py',)):
         for s in source_strings(f):
             if s not in words and s not in lexemes and len(s) <= 24:
                 words.append(s)
-    for w in words + MULTI:
+    # multi-word keywords are discovered, not assumed: every ordered pair of words that the real
+    # lexer turns into ONE token joins the alphabet
+    multi = list(MULTI)
+    for a in words:
+        for b in words:
+            ph = a + ' ' + b
+            if ph in multi or not (a.isalpha() and b.isalpha()):
+                continue
+            tk = list(lexer.tokenize(' ' + ph + ' '))
+            if len(tk) == 3 and tk[1][1] == ph:
+                multi.append(ph)
+    for w in words + multi:
         for v in respell(w):
             if v not in lexemes:
                 lexemes.append(v)
